@@ -94,6 +94,16 @@ def call_stmt(ex, e, st):
         return cut(ex, e, st)
     if isinstance(f, ast.Name) and f.id in ("stash", "unstash"):
         return stash(ex, e, st, f.id)
+    if isinstance(f, ast.Name) and f.id == "forget":
+        # ghost: forget("name", ..) drops the hypotheses that mention one of these spec functions (weakening the path condition is sound)
+        names = [a.value for a in e.args]
+        keep = []
+        for p_ in st.pc:
+            txt = p_.sexpr()
+            if not any(("(" + n_ + " ") in txt for n_ in names):
+                keep.append(p_)
+        st.pc = keep
+        return
     if isinstance(f, ast.Name) and f.id == "mark":
         # ghost: mark(t) makes the facts whose trigger is here(.) available at t.  here is an otherwise unconstrained predicate, so
         # assuming it for chosen terms is conservative; it only steers quantifier instantiation.
@@ -136,6 +146,7 @@ def stash(ex, e, st, what):
             ex.quiet -= 1
         ex.prove(st, f"stash:{name}", g, e.lineno)
         st.stash[name] = g
+        st.pc = [p_ for p_ in st.pc if not p_.eq(g)]       # set aside: out of the queries until unstash(name)
     else:
         if name not in st.stash:
             raise U(f"unstash of unknown fact {name}")
